@@ -79,6 +79,12 @@ func (c *Config) ConstExpr(name string) {
 		c.Error(fmt.Errorf("no environment for const expression: %v", name))
 		return
 	}
+	defer func() {
+		// FetchFn panics when the environment has no such member.
+		if r := recover(); r != nil {
+			c.Error(fmt.Errorf("%v", r))
+		}
+	}()
 	c.ConstExprFns[name] = vm.FetchFn(c.Env, name)
 }
 
